@@ -27,7 +27,13 @@ def describe(tier):
                 "UNKNOWN->(None,None). Expressions with <= 3 leaves are additionally evaluated with the answers delivered through the library's own "
                 "DictBased* evaluators (evaluator_factory), its ContentEvaluationResultBased* evaluators and user-style method-based "
                 "evaluators with per-instance state (a new instance per assignment), and four 3-key expressions (one with a repeated key) under all 6 permutations of "
-                "F/U/UNKNOWN and ALL completion orders of suspending evaluate_<key> coroutines (virtual event loop). A (expression, assignment) pair is non-trivial if the expression has >= 1 operator and the assignment "
+                "F/U/UNKNOWN and ALL completion orders of suspending evaluate_<key> coroutines (virtual event loop). Expressions with 2-3 leaves are "
+                "repeated with the first three requirement keys in each of the 5 other orders (first occurrence vs. string vs. numeric order). "
+                f"Flat chains with {LONG[tier]} requirement-key occurrences x operator patterns {LONG_OPS}: 2 or 3 keys cycling under all 3^k assignments, all keys "
+                "distinct under uniform assignments with <= 1 deviation (deviation-bounded). "
+                f"Histories of depth 2: each of {len(HIST_FIRST)} first expressions (valid and invalid) under every assignment through the transformer, "
+                f"the async entry point or the validity check, followed by each of {len(HIST_SECOND)} valid expressions sharing sub-expressions under every "
+                "assignment - the second result must equal the reference. A (expression, assignment) pair is non-trivial if the expression has >= 1 operator and the assignment "
                 "contains UNKNOWN or the expression contains a hint/FC.",
         "bounds": {"sizes": BOUNDS[tier]},
         "exhaustive": True,
@@ -36,6 +42,14 @@ def describe(tier):
 
 
 MODES = ("hardcoded", "cer", "methods")
+# histories (E2, depth 2): a FIRST operation on one expression (valid or invalid; through the transformer, the async entry point or
+# the validity check), then the evaluation of a valid expression that shares sub-expressions with it
+HIST_FIRST = ["([1] U [2005]) O [501]", "([1] O [2005]) X [901]", "([1] U [2005]) X [501] U [499]", "[501] U ([1] U [2005]) O [502]",
+              "[1] U [2005]", "([1] U [2005]) O [499]", "([1] O [2005]) U [499]", "[1] U [2005] U [501]"]
+HIST_SECOND = ["[1] U [2005]", "([1] U [2005]) O [499]", "([1] O [2005]) X [499]", "[1] U [2005] U [501]", "([1] O [2005]) U [499][901]"]
+LONG = {"quick": [6, 10, 11, 12, 21], "thorough": [6, 7, 8, 9, 10, 11, 12, 13, 16, 20, 21, 22, 31, 33]}
+LONG_OPS = ["U", "O", "X", "UO", "OU", "XU", "UOX"]
+HIST_OPS = ("tree", "async", "valid")
 ORDER_EXPRS = ["[1] U ([2005] O [499])", "([499] X [1]) O [2005] U [501]", "[2005][901] U [1] O [499]", "([1] U [2005]) O ([1] U [499])"]
 
 
@@ -49,6 +63,16 @@ def plan(tier, seed):
             for p in range(parts):
                 items.append({"fam": "modes", "mode": mode, "n": n, "lab": "all" if n <= 3 else "distinct", "part": p, "parts": parts,
                               "seed": seed})
+    # key labels in every relative (string / numeric) order: the first three requirement keys of the pool in all 5 other permutations
+    for perm in range(1, 6):
+        for n in (2, 3):
+            items.append({"fam": "keyorder", "perm": perm, "n": n, "seed": seed})
+    for L in LONG[tier]:
+        for ops in range(len(LONG_OPS)):
+            items.append({"fam": "long", "L": L, "ops": ops, "seed": seed})
+    for f in range(len(HIST_FIRST)):
+        for op in HIST_OPS:
+            items.append({"fam": "history", "first": f, "op": op, "seed": seed})
     # requirement evaluators whose evaluate_<key> coroutines really suspend: ALL completion orders (virtual event loop, E3)
     for e in range(len(ORDER_EXPRS)):
         for perm in range(6):
@@ -131,6 +155,58 @@ def check_expr_mode(expr, mode, only_assign=None):
     return out, n
 
 
+def long_cases(L, ops, seed):
+    """flat chains with L requirement-key occurrences: (expression, list of assignments or None = all 3^k)"""
+    sp = X.spelling(seed)
+    opname = {"U": "and", "O": "or", "X": "xor"}
+    pat = LONG_OPS[ops]
+    pool = [str(k) for k in list(range(1, 40)) + [2001, 2499]]
+
+    def chain(keys):
+        s = f"[{keys[0]}]"
+        for i, k in enumerate(keys[1:]):
+            s += f" {sp[opname[pat[i % len(pat)]]]} [{k}]"
+        return s
+
+    for nk in (2, 3):
+        yield chain([pool[(7 * i) % nk] for i in range(L)]), None
+    keys = [pool[(5 * i) % len(pool)] for i in range(L)]  # not in ascending order
+    assigns = []
+    for base in "FU?":
+        assigns.append({k: base for k in keys})
+        for d in keys:
+            for other in "FU?":
+                if other != base:
+                    assigns.append({k: (base if k != d else other) for k in keys})
+    yield chain(keys), assigns
+
+
+def _first_op(expr, op, assign):
+    """the first operation of a history; its own result is not judged here (C04 main family / C06 do that)"""
+    I = X.init()
+    if op == "valid":
+        def setter(cer):
+            I.ENV.set(I.Env(rc={k: I.STATE_NAME[v] for k, v in cer.requirement_constraints.items()},
+                            fc={k: (v.format_constraint_fulfilled, v.error_message) for k, v in cer.format_constraints.items()},
+                            hints=dict(cer.hints), yielder=X._no_yield))
+        I.try_call(lambda: I.run(I.is_valid_expression("Muss " + expr, setter), I.Env()))
+        return
+    pr = X.parse(expr)
+    if op == "tree":
+        X.eval_tree(pr[1], pr[2], assign)
+    else:
+        X.eval_async(expr, pr[2], assign)
+
+
+def check_history(first, op, a1, second, a2):
+    _first_op(first, op, a1)
+    vs = check_expr(second, a2)[0]
+    for v in vs:
+        v["kind"] = "after-history/" + v["kind"]
+        v["case"] = {"history": [first, op, a1], "expr": second, "assign": a2}
+    return vs
+
+
 def _orders_setup(item):
     import itertools
     import json
@@ -183,6 +259,56 @@ def run_item(item):
                 r.violation("outcome-mapping/completion-order", {"orders": item, "choices": exp.first_schedule_of_outcome[out]}, want, out,
                             f"{expr} under {assign}: some completion orders of the evaluate_<key> coroutines give another outcome")
         r.sample({"expr": expr, "assign": assign, "schedules": exp.schedules})
+        return r
+    if item.get("fam") == "keyorder":
+        import itertools
+
+        perm = list(itertools.permutations(range(3)))[item["perm"]]
+        pools = dict(pools, rc=[pools["rc"][i] for i in perm] + pools["rc"][3:])
+        for ast in A.asts(item["n"], "all", pools=pools):
+            if not A.is_valid(ast):
+                continue
+            expr = X.render(ast, item["seed"])
+            vs, pairs, nontrivial, outcomes = check_expr(expr)
+            r.evaluations += pairs
+            r.states += pairs
+            r.transitions += 2 * pairs + 1
+            r.traces += 1
+            r.nontrivial += nontrivial
+            r.stat("keyorder_expressions")
+            for v in vs:
+                r.violation(v["kind"], v["case"], v["expected"], v["observed"], v["msg"])
+        return r
+    if item.get("fam") == "long":
+        for expr, assigns in long_cases(item["L"], item["ops"], item["seed"]):
+            for a in (assigns if assigns is not None else [None]):
+                vs, pairs, nontrivial, outcomes = check_expr(expr, a)
+                r.evaluations += pairs
+                r.states += pairs
+                r.transitions += 2 * pairs + 1
+                r.nontrivial += nontrivial
+                r.stat("long_chain_pairs", pairs)
+                for v in vs:
+                    r.violation(v["kind"], v["case"], v["expected"], v["observed"], v["msg"])
+            r.traces += 1
+        r.sample({"expr": expr[:60] + "...", "L": item["L"]})
+        return r
+    if item.get("fam") == "history":
+        first = HIST_FIRST[item["first"]]
+        k1 = R3.keys_of(X.parse(first)[2], "rc")
+        for a1 in ([{}] if item["op"] == "valid" else X.assignments(k1)):
+            for second in HIST_SECOND:
+                for a2 in X.assignments(R3.keys_of(X.parse(second)[2], "rc")):
+                    vs = check_history(first, item["op"], a1, second, a2)
+                    r.evaluations += 1
+                    r.states += 1
+                    r.transitions += 2
+                    r.nontrivial += 1 if a1 != {k: a2.get(k) for k in a1} else 0
+                    r.stat("histories")
+                    for v in vs:
+                        r.violation(v["kind"], v["case"], v["expected"], v["observed"], v["msg"])
+            r.traces += 1
+        r.sample({"first": first, "op": item["op"]})
         return r
     if item.get("fam") == "modes":
         from mc import impl_modes as M
@@ -237,6 +363,8 @@ def replay(case):
         vloop, factory, observe, want, expr, assign = _orders_setup(case["orders"])
         out = observe(vloop.run_schedule(factory, case["choices"]))
         return [] if out == want else [{"kind": "outcome-mapping/completion-order", "case": case, "expected": want, "observed": out}]
+    if "history" in case:
+        return check_history(*case["history"], case["expr"], case["assign"])
     if case.get("mode"):
         from mc import impl_modes as M
 
